@@ -120,7 +120,7 @@ def gen_symmetry():
 
 
 def gen_unused():
-    show = " #show out/1. #show out/2."
+    show = " #show out/1. #show out/2. #show a/2."
     # (a copy rule with a repeated head variable, "b(X,X) :- a(X,_).", is the open finding
     # C09-copy-rule-repeated-head-variable; its witness is replayed on every run, the shape is not generated here)
     mids = ["b(X,Y) :- a(X,Y).", "b(X) :- a(X,_).", "b(Y,X) :- a(X,Y).", "b(X,Y,Z) :- a(X,Y), a(Y,Z).", "b(X,Y) :- a(X,Y), X < Y.", "b(X,1) :- a(X,_).", "b(f(X),Y) :- a(X,Y)."]
@@ -224,8 +224,34 @@ def gen_projection2():
             yield stm + " {a(1..2,1..2)}." + show, ["b(2,3). c(3,1). d(1). d(3).", "b(1,1). b(2,2). c(1,2). c(2,4). d(2). d(4).", "b(2,1). c(1,1). d(1). d(2)."]
 
 
+def gen_unused3():
+    """copy rules ("a :- b.") in many forms: negated, zero arity, constants, chained, used under negation"""
+    show = " #show out/0. #show out/1. #show b/0. #show b/1. #show b/2."
+    copies = ["a :- b.", "a :- not b.", "a :- not not b.", "a(X) :- b(X).", "a(X) :- b(X), c(X).", "a(X) :- b(X). a(3) :- c(1).", "a(X,Y) :- b(Y,X).", "a(1) :- b(2).", "a(X) :- b(X,_).", "a(X) :- b(f(X))."]
+    uses = ["out :- a.", "out :- not a.", "out(X) :- a(X).", "out(X) :- c(X), not a(X).", "out(X) :- a(X,_).", "out(X) :- a(X,Y), c(Y).", "out(N) :- N = #count{X : a(X)}.", "out :- a, c(1)."]
+    for c_ in copies:
+        for u in uses:
+            yield "{b}. {b(1..2)}. {b(1..2,1..2)}. {b(f(1))}. c(1..2). " + c_ + " " + u + show, [""]
+
+
+def gen_math2():
+    show = " #show a/0. #show a/1. #show b/1."
+    for o1 in OPS:
+        # a variable bound by an equality that the algebra may eliminate and that an aggregate element uses
+        yield f"{{b(-1..3)}}. k(1..2). a(Z) :- k(Z), Y = Z + 1, X = #sum{{V : b(V), V < Y}}, X {o1} 2." + show, [""]
+        yield f"{{b(-1..3)}}. k(1..2). a(Z) :- k(Z), Y = Z * 2, 1 {o1} #sum{{V : b(V), V != Y}}." + show, [""]
+        yield f"{{b(-1..3)}}. k(1..2). a(Z) :- k(Z), Y - Z = 1, X = #count{{V : b(V), V >= Y}}, X {o1} 1." + show, [""]
+        # #sum+ with constant weights of either sign, scaled / merged
+        yield f"{{b(-1..3)}}. a :- X = #sum+{{-1,V : b(V); 2,V,x : b(V)}}, X * 2 {o1} 4." + show, [""]
+        yield f"{{b(-1..3)}}. a :- X = #sum+{{-1,V : b(V); 1,V,x : b(V)}}, Y = #sum{{V : b(V)}}, X + Y {o1} 2." + show, [""]
+        yield f"{{b(-1..3)}}. a :- X = #sum+{{0,V : b(V); 3,x : b(1)}}, 0 - X {o1} -2." + show, [""]
+        yield f"{{b(-1..3)}}. a :- X = #sum{{V : b(V)}}, Y = #sum{{V,V : b(V)}}, X + Y {o1} 4, X - Y = 0." + show, [""]
+        yield f"{{b(-1..3)}}. a :- X = #sum{{V : b(V)}}, X + 1 {o1} 3, X - 1 < 4." + show, [""]
+        yield f"{{b(-1..3)}}. k(1..3). a(K) :- k(K), X = #sum{{V : b(V)}}, X {o1} K, K {o1} 2." + show, [""]
+
+
 def gen_unused2():
-    show = " #show out/1. #show out/2."
+    show = " #show out/1. #show out/2. #show a/2."
     mids = ["b(X,Y,Z) :- a(X,Y), a(Y,Z).", "b(X,Y) :- a(X,Y), a(Y,_).", "b(X,c) :- a(X,_).", "b(X,Y) :- a(X,Y). b(X,X) :- a(X,X).", "{b(X,Y)} :- a(X,Y).", "b(X,Y) ; d(X) :- a(X,Y).", "b(X,N) :- a(X,_), N = #count{Y : a(X,Y)}.", "b(X,Y) :- a(X,Y), not a(Y,X)."]
     outs = ["out(X) :- b(X,_).", "out(X) :- b(X,_,_).", "out(X) :- b(X,Y), b(Y,_).", "out(N) :- N = #count{X : b(X,_)}.", "out(N) :- N = #sum{Y,X : b(X,Y)}.", "out(X) :- a(X,_), not b(X,_).", "out(X) :- b(X,_) : a(X,X); a(X,_).", "out(X,Y) :- b(X,Y), X < Y.", "out(X) :- b(X,c).", ":~ b(X,Y). [1@1,X] out(X) :- a(X,X)."]
     for m_ in mids:
@@ -271,7 +297,29 @@ def gen_inline2():
             yield "{b(-1..2)}. {d(1..2)}. " + h + " " + u + show, [""]
 
 
+def gen_duplication():
+    """literal sets shared by several bodies / conditions / aggregate elements / objectives"""
+    show = " #show r/1. #show s/1. #show r/2. #show s/0."
+    sets_ = ["a(X,Y), b(Y,Z)", "a(X,Y), not b(Y,X)", "a(X,Y), X < Y", "a(X,Y), b(Y,_)", "a(X,Y), b(Y,Z), c(Z)", "a(X,Y), Y = X + 1", "a(X,_), a(_,X)", "a(X,Y), b(Y,Z), Z != X", "a(X,Y), not not c(Y)", "a(X,X), c(X)"]
+    uses = [
+        ("r(X) :- {L}, c(X).", "s(X) :- {L}, not c(X)."),
+        ("r(X) :- {L}.", "s(Y) :- {L}."),
+        ("r(X) :- c(X), d(Q) : {L2}.", "s(X) :- c(X), not d(Q) : {L2}."),
+        ("r(N) :- N = #sum{{X,Y : {L}}}.", "s(N) :- N = #count{{X : {L}, c(X)}}."),
+        ("r(X) :- {L}, c(X).", ":~ {L}. [X@1,Y]"),
+        ("r(X) :- {L}, c(X).", "s :- {L3}."),
+        ("r(X) :- {L}, c(X).", "s(N) :- N = #max{{Y : {L}}}."),
+        ("{{r(X)}} :- {L}.", ":- {L}, r(X), c(Y)."),
+    ]
+    for L in sets_:
+        L2 = L.replace("X", "Q")
+        L3 = L.replace("X", "U").replace("Y", "V").replace("Z", "W")
+        for u1, u2 in uses:
+            yield u1.format(L=L, L2=L2, L3=L3) + " " + u2.format(L=L, L2=L2, L3=L3) + show, ["a(1,2). a(2,3). b(2,3). b(3,1). c(1). c(3). d(1).", "a(1,1). a(2,1). b(1,2). b(1,1). c(2). d(2).", "a(1,2). c(1)."]
+
+
 GENERATORS = {
+    "duplication": gen_duplication,
     "none": gen_none,
     "inline": gen_inline,
     "minmax_chains": gen_minmax,
@@ -286,7 +334,8 @@ GENERATORS = {
 EXTRA = {
     "cleanup": [gen_cleanup2],
     "projection": [gen_projection2],
-    "unused": [gen_unused2],
+    "unused": [gen_unused2, gen_unused3],
+    "math": [gen_math2],
     "minmax_chains": [gen_minmax2],
     "sum_chains": [gen_sum_chains2],
     "inline": [gen_inline2],
